@@ -49,6 +49,20 @@ def vec_r(lon, lat, r):
     return (r * math.cos(lat) * math.cos(lon), r * math.cos(lat) * math.sin(lon), r * math.sin(lat))
 
 
+def sun_vector_j2000(e):
+    """Equatorial FK5 J2000 rectangular coordinates of the Sun built by the harness from the library's
+    J2000 heliocentric position of the Earth (spherical -> rectangular with the cos(latitude) factor,
+    then Meeus' (26.3) matrix) - independent of Sun.rectangular_coordinates_j2000."""
+    lon, lat, r = Earth.geometric_heliocentric_position_j2000(e)
+    l, b = lon.rad() + math.pi, -lat.rad()
+    x = r * math.cos(b) * math.cos(l)
+    y = r * math.cos(b) * math.sin(l)
+    z = r * math.sin(b)
+    return (x + 0.000000440360 * y - 0.000000190919 * z,
+            -0.000000479966 * x + 0.917482137087 * y - 0.397776982902 * z,
+            0.397776982902 * y + 0.917482137087 * z)
+
+
 def check_planet(nm, j):
     P = planet(nm)
     out = []
@@ -133,7 +147,7 @@ def check_pluto(j):
     out = []
     if e.jde() != j0:
         out.append(("epoch_shifted", "Pluto.geocentric_position shifted the caller's Epoch", None))
-    xs, ys, zs = Sun.rectangular_coordinates_j2000(e)
+    xs, ys, zs = sun_vector_j2000(e)
     tau = 0.0
     for _ in range(3):
         x, y, z = pluto_vec(e - tau)
@@ -203,7 +217,7 @@ def check_minor(case):
                  % (q, ecc, i, dt, ex), None)]
     if ep.jde() != j0 or T.jde() != Epoch(*tp).jde() or args[2]._deg != i:
         out.append(("epoch_shifted", "Minor.geocentric_position modified its arguments", None))
-    xs, ys, zs = Sun.rectangular_coordinates_j2000(ep)
+    xs, ys, zs = sun_vector_j2000(ep)
     tau = 0.0
     for _ in range(4):
         H = TB.helio_equ(q, ecc, i, node, w, dt - tau)
@@ -242,7 +256,7 @@ def check_minor_continuity(case):
             # the orbits themselves differ by O(de): allow the two-body difference plus 1e-4
             H0 = TB.helio_equ(q, e_lo, o[0], o[1], o[2], dt)
             H1 = TB.helio_equ(q, e_hi, o[0], o[1], o[2], dt)
-            xs, ys, zs = Sun.rectangular_coordinates_j2000(T + dt)
+            xs, ys, zs = sun_vector_j2000(T + dt)
             g0 = S.lonlat((H0[0] + xs, H0[1] + ys, H0[2] + zs))
             g1 = S.lonlat((H1[0] + xs, H1[1] + ys, H1[2] + zs))
             nat = S.sep_ll(g0[0], g0[1], g1[0], g1[1])
@@ -260,8 +274,11 @@ def run_minor(block, ctx):
         ctx.evals += 1
         res = check_minor(case)
         for site, msg, dev in res:
-            ctx.viol({"q": case["q"], "e": case["e"], "i": case["orient"][0], "node": case["orient"][1],
-                      "w": case["orient"][2], "dt": case["dt"], "orient": case["orient"]}, msg, dev=dev, site=site)
+            vc = {"q": case["q"], "e": case["e"], "i": case["orient"][0], "node": case["orient"][1],
+                  "w": case["orient"][2], "dt": case["dt"], "orient": case["orient"]}
+            if "T" in case:
+                vc["T"] = case["T"]
+            ctx.viol(vc, msg, dev=dev, site=site)
             ctx.maxi(site, dev)
         if case["e"] >= 0.98 or abs(case["dt"]) <= 0.5:
             ctx.nt_count += 1
@@ -325,7 +342,7 @@ def _h_direct(o, t):
     q, ecc, i, node, w = H_ORBITS[o]
     ep = Epoch(*H_EPOCHS[t])
     dt = ep.jde() - Epoch(*T_PERI).jde()
-    xs, ys, zs = Sun.rectangular_coordinates_j2000(ep)
+    xs, ys, zs = sun_vector_j2000(ep)
     tau = 0.0
     for _ in range(4):
         H = TB.helio_equ(q, ecc, i, node, w, dt - tau)
@@ -470,6 +487,71 @@ def run_pluto_range(block, ctx):
     ctx.sample({"years": [1884.9, 1885.01, 2098.99, 2099.1]})
 
 
+# -- minor bodies with perihelion centuries from J2000 (the J2000 latitude of the Earth is large there) ---
+
+FAR_T = [(1000, 1, 10.0), (-500, 7, 1.5), (3200, 10, 20.25), (-1990, 3, 3.0), (3990, 6, 6.0)]
+
+
+def far_cases():
+    return [{"q": q, "e": e, "orient": list(o), "dt": dt, "T": list(tp)}
+            for tp in FAR_T for q in (0.85, 1.2) for e in (0.35, 0.985, 1.0) for o in ORIENT[1:3]
+            for dt in (-40.0, 0.0, 25.0, 170.0)]
+
+
+# -- planets at their conjunctions and oppositions (elongation near 0 and 180) ----------------------------
+
+ALIGN_FINDERS = {"Mercury": ["inferior_conjunction", "superior_conjunction"],
+                 "Venus": ["inferior_conjunction", "superior_conjunction"],
+                 "Mars": ["conjunction", "opposition"], "Jupiter": ["conjunction", "opposition"],
+                 "Saturn": ["conjunction", "opposition"], "Uranus": ["conjunction", "opposition"],
+                 "Neptune": ["conjunction", "opposition"]}
+ALIGN_YEARS = [-1500.3, 0.6, 1000.1, 1995.4, 2002.0, 3500.7]
+ALIGN_OFFSETS = [0.0, 0.2, -0.2, 1.0, -1.0, 4.0]
+
+
+def check_alignment(case):
+    """At (and days around) the conjunctions / oppositions returned by the library's own finders the
+    reported elongation is the angle between the returned direction and the Sun's apparent direction
+    (0.25 degree: the 0.02..0.18 degree offset of the recorded finding C09-a stays below it) and lies
+    in [0, 180] - 'acos near alignment' shortcuts go wrong exactly here."""
+    nm, fn, y, off = case["planet"], case["finder"], case["year"], case["offset"]
+    P = planet(nm)
+    out = []
+    try:
+        t0 = getattr(P, fn)(Epoch(y2jde(y)))
+        e = Epoch(t0.jde() + off)
+        ra, dec, elon = P.geocentric_position(e)
+    except Exception as ex:
+        return [("alignment_exception", "%s at %s of year %r %+g d raised %r" % (nm, fn, y, off, ex), None)]
+    e = Epoch(t0.jde() + off)
+    sl, sb, sr = Sun.apparent_geocentric_position(e)
+    sra, sdec = ecliptical2equatorial(sl, sb, true_obliquity(e))
+    el2 = S.sep_ll(ra._deg, dec._deg, sra._deg, sdec._deg)
+    dv = abs(elon._deg - el2)
+    if dv > 0.25 or not (0.0 <= elon._deg <= 180.0):
+        out.append(("elongation_alignment", "%s %+g d from its %s (JDE %r): elongation %r, angle to the Sun %r"
+                    % (nm, off, fn, e.jde(), elon._deg, el2), dv))
+    want_small = fn in ("inferior_conjunction", "superior_conjunction", "conjunction")
+    if off == 0.0 and ((want_small and el2 > 12.0) or (not want_small and el2 < 168.0)):
+        out.append(("alignment_geometry", "%s at its %s is %r degrees from the Sun" % (nm, fn, el2), el2))
+    return out
+
+
+def alignment_cases():
+    return [{"planet": nm, "finder": fn, "year": y, "offset": off} for nm, fl in ALIGN_FINDERS.items() for fn in fl
+            for y in ALIGN_YEARS for off in ALIGN_OFFSETS]
+
+
+def run_alignment(block, ctx):
+    for case in block:
+        ctx.evals += 2
+        ctx.nt_count += 1
+        for site, msg, dev in check_alignment(case):
+            ctx.viol(case, msg, dev=dev, site=site)
+        ctx.outcome((case["planet"], case["finder"]))
+    ctx.sample(block[0])
+
+
 def clauses(tier):
     if tier == "thorough":
         js = [y2jde(y) + ph for y in range(-2000, 4000, 5) for ph in (0.0, 31.1, 62.3, 91.3, 121.9, 152.2, 183.7,
@@ -494,12 +576,16 @@ def clauses(tier):
     return [
         Clause("planets", pshards, run_planets, lambda c: [m for _, m, _ in check_planet(c["planet"], c["jde"])],
                floor=100),
+        Clause("planet_alignments", chunks(alignment_cases(), 16), run_alignment,
+               lambda c: [m for _, m, _ in check_alignment(c)], floor=200),
         Clause("pluto", chunks(pl, 8), run_pluto, lambda c: [m for _, m, _ in check_pluto(c["jde"])], floor=50),
         Clause("pluto_range", [0], run_pluto_range, check_pluto_range, floor=2),
         Clause("minor", chunks(minor_cases(), 32), run_minor,
                lambda c: [m for _, m, _ in check_minor(c)], floor=500),
         Clause("minor_close_approach", chunks(close_cases(), 16), run_close,
                lambda c: [m for _, m, _ in check_minor(c)], floor=200),
+        Clause("minor_far_epochs", chunks(far_cases(), 8), run_minor,
+               lambda c: [m for _, m, _ in check_minor(c)], floor=100),
         Clause("minor_history", chunks(hists, 16), run_history,
                lambda c: [m for _, m, _ in check_minor_history(tuple(c["history"]))], floor=500, shape="H"),
         Clause("planet_history", chunks(phists, 32), run_planet_history,
